@@ -20,3 +20,61 @@ def rowsWithin (rows : List (Nat × String)) (lo : Nat) (n : Nat) (stop : Nat) :
   rows.all fun p => lo < p.1 && p.1 ≤ n && (stop == 0 || p.1 ≤ stop)
 
 end Shovel.World
+
+namespace Shovel.World
+
+/-! ### chains, honest answers, invariants (used by the C01–C06 theorems) -/
+
+/-- a canonical chain: `blks[i]` is block number `i` -/
+structure Chain where
+  blks : List Blk
+  deriving Repr
+
+def Chain.head (c : Chain) : Nat := c.blks.length - 1
+def Chain.hashAt (c : Chain) (n : Nat) : String := match c.blks[n]? with | some b => b.hash | none => ""
+/-- blocks `start .. start+limit-1` -/
+def Chain.slice (c : Chain) (start limit : Nat) : List Blk := (c.blks.drop start).take limit
+
+/-- numbered, hash-linked, 32-byte (64 hex digit) hashes, hashes injective over the chain -/
+structure Chain.WF (c : Chain) : Prop where
+  nonempty : c.blks ≠ []
+  num : ∀ (i : Nat) (b : Blk), c.blks[i]? = some b → b.num = i
+  len : ∀ (i : Nat) (b : Blk), c.blks[i]? = some b → b.hash.length = 64 ∧ b.parent.length = 64
+  link : ∀ (i : Nat) (a b : Blk), c.blks[i]? = some a → c.blks[i + 1]? = some b → b.parent = a.hash
+  inj : ∀ (i j : Nat) (a b : Blk), c.blks[i]? = some a → c.blks[j]? = some b → a.hash = b.hash → i = j
+
+/-- every answer of the script is either a failure or what chain `c` says (the head reported may
+    lag: any block number up to the head) -/
+structure ScriptOK (c : Chain) (sc : Script) : Prop where
+  latest : ∀ a ∈ sc.latest, a = none ∨ ∃ n, n ≤ c.head ∧ a = some (n, c.hashAt n)
+  hash : ∀ p ∈ sc.hash, p.2 = none ∨ (p.1 ≤ c.head ∧ p.2 = some (c.hashAt p.1))
+  gets : ∀ g ∈ sc.gets, g.2 = none ∨ (1 ≤ g.1.2 ∧ g.1.1 + g.1.2 - 1 ≤ c.head ∧ g.2 = some (c.slice g.1.1 g.1.2))
+
+def mineC (t : Task) (x : Cur) : Bool := x.src == t.src && x.ig == t.ig
+def mine (t : Task) (r : TRow) : Bool := r.table == t.table && r.src == t.src && r.ig == t.ig
+
+/-- the rows the declaration derives from block `b` for task `t` -/
+def rowsFor (t : Task) (b : Blk) : List TRow :=
+  b.rows.map fun (k, p) => { table := t.table, src := t.src, ig := t.ig, blk := b.num, key := k, pay := p }
+
+def topOf (cs : List Cur) : Option Nat := cs.foldl (fun m x => match m with
+  | none => some x.num
+  | some n => some (max n x.num)) none
+
+/-- **the C01/C02 invariant** for task `t` with initial position `s` on chain `c`: no position and
+    no rows; or every recorded position is a block of the chain (number in `(s, head]`, its hash),
+    positions are distinct, and the rows are exactly the projection of blocks `(s, top]`, in order. -/
+def Inv (t : Task) (c : Chain) (s : Nat) (db : DB) : Prop :=
+  let cs := db.cur.filter (mineC t)
+  let rs := db.rows.filter (mine t)
+  (∀ x ∈ cs, s < x.num ∧ x.num ≤ c.head ∧ x.hash = c.hashAt x.num) ∧
+  (cs.map (·.num)).Nodup ∧
+  rs = (c.slice (s + 1) ((topOf cs).getD s - s)).flatMap (rowsFor t)
+
+/-- unique keys: the chain's row keys are pairwise distinct and no foreign row of the same table
+    carries one of them (they contain ig_name, src_name and block_num in practice) -/
+def KeysOK (t : Task) (c : Chain) (db : DB) : Prop :=
+  (c.blks.flatMap fun b => b.rows.map (·.1)).Nodup ∧
+  ∀ r ∈ db.rows, mine t r = false → r.table = t.table → r.key ∉ (c.blks.flatMap fun b => b.rows.map (·.1))
+
+end Shovel.World
